@@ -210,12 +210,16 @@ def judge(stream, box, velz, fdt=np.float32, modes=None):
     tol = 3e-6 if fdt == np.float32 else 1e-11
     other = np.float64 if fdt == np.float32 else np.float32
     tol32 = 3e-6
-    for pm, vm in (modes or (list(itertools.product(('alloc', 'skip', 'given', 'tight'), repeat=2)) + [('other', 'other'), ('other', 'alloc'), ('given', 'other')])):
+    for pm, vm in (modes or (list(itertools.product(('alloc', 'skip', 'given', 'tight'), repeat=2)) + [('other', 'other'), ('other', 'alloc'), ('given', 'other'),
+                                                                                                  ('strided', 'strided'), ('skip', 'strided')])):
         # 'other': a preallocated buffer whose dtype is not float_dtype - a supplied array must be filled itself, whatever its dtype
+        # 'strided': non-contiguous supplied outputs (halves of an interleaved (N, 6) buffer / every second row of a taller array)
+        inter = np.full((N, 6), np.nan, dtype=fdt)
+        tall = np.full((2 * N, 3), np.nan, dtype=fdt)
         po = {'alloc': None, 'skip': False, 'given': np.full((N, 3), np.nan, dtype=fdt), 'other': np.full((N, 3), np.nan, dtype=other),
-              'tight': np.full((npart, 3), np.nan, dtype=fdt)}[pm]         # exactly one row per particle
+              'tight': np.full((npart, 3), np.nan, dtype=fdt), 'strided': inter[:, :3]}[pm]         # tight: exactly one row per particle
         vo = {'alloc': None, 'skip': False, 'given': np.full((N, 3), np.nan, dtype=fdt), 'other': np.full((N, 3), np.nan, dtype=other),
-              'tight': np.full((npart, 3), np.nan, dtype=fdt)}[vm]
+              'tight': np.full((npart, 3), np.nan, dtype=fdt), 'strided': tall[::2]}[vm]
         try:
             r = unpack_pack9(data, box, velz, float_dtype=fdt, posout=po, velout=vo)
         except IndexError as ex:
